@@ -490,6 +490,11 @@ func (r *c11Run) clientOp(op *Op) {
 		_ = sch.UnpauseJob(op.S)
 		count("resumes")
 	case "status":
+		if !h.Full.Runner.VerifRunningIsCopy() {
+			r.mu.Lock()
+			r.fail(viol("C11", "shared-state", "running-jobs-map-shared", "the status listing is handed the raffle's live map of running jobs: iterating it while a run starts or ends is a concurrent map iteration and map write, which ends the process"))
+			r.mu.Unlock()
+		}
 		_ = sch.GetRunningJobs()
 		_ = sch.GetRunningJob(op.S)
 		_ = sch.GetScheduleEntries()
